@@ -73,11 +73,15 @@ def _gen_chunk(args):
     return p
 
   for n in range(n0, n0 + length):
-    tc = SmpteTimeCode.from_frames(n, rate)
+    # (the count is an integer, given as int or - one time in seven - as the Fraction that offset * rate yields)
+    tc = SmpteTimeCode.from_frames(Fraction(n) if n % 7 == 3 else n, rate)
     rec["lab"].append(pk(tc, "from_frames", n))
     tf = tc.to_frames()
     rec["tf"].append(int(tf) if tf == int(tf) else -1)
-    st = str(tc)
+    try:
+      st = str(tc)
+    except Exception:  # pylint: disable=broad-except
+      st = ""                       # cannot be printed: recorded as a malformed label (sep = 2)
     mm = _STR_RE.match(st)
     if mm is None:
       rec["sep"].append(2)
